@@ -76,6 +76,10 @@ func (t *csmTr) gtype(f *file, e ast.Expr) string {
 		switch x.Name {
 		case "int", "NodeID", "result", "T":
 			return "Z"
+		case "int64", "error":
+			if t.loc {
+				return "Z" // error: 0 = nil, otherwise the code of a sentinel (c_Err...)
+			}
 		case "bool":
 			return "bool"
 		case "csmNode":
@@ -92,6 +96,11 @@ func (t *csmTr) gtype(f *file, e ast.Expr) string {
 		}
 		if x.Len == nil && t.loc && t.gtype(f, x.Elt) == "gtime" {
 			return "list gtime"
+		}
+		if st, ok := x.Elt.(*ast.StarExpr); ok && x.Len == nil && t.loc {
+			if id, ok := st.X.(*ast.Ident); ok && id.Name == "cronField" {
+				return "fields" // the parsed expression (QzBase.Fields), opaque here
+			}
 		}
 	case *ast.SelectorExpr:
 		switch callName(x) {
@@ -406,13 +415,33 @@ type fnCtx struct {
 	env  map[string]string
 	loop *loopCtx
 	tmp  int
+	// inFor: inside the body of an unbounded `for { }`: a return is `inr value`, continue is `inl state`
+	inFor bool
 }
 
 func (c *fnCtx) pos(n ast.Node) string { return c.fn.file.fset.Position(n.Pos()).String() }
 
 func (c *fnCtx) fresh(p string) string { c.tmp++; return fmt.Sprintf("%s__%d", p, c.tmp) }
 
+func hasUnboundedFor(fd *ast.FuncDecl) bool {
+	found := false
+	ast.Inspect(fd.Body, func(n ast.Node) bool {
+		if f, ok := n.(*ast.ForStmt); ok && f.Init == nil && f.Cond == nil && f.Post == nil {
+			found = true
+		}
+		return true
+	})
+	return found
+}
+
 func (c *fnCtx) retType() string {
+	if hasUnboundedFor(c.fn.decl) {
+		return "option " + c.retType0()
+	}
+	return c.retType0()
+}
+
+func (c *fnCtx) retType0() string {
 	var parts []string
 	if c.fn.mutates {
 		parts = append(parts, c.fn.recvType)
@@ -430,6 +459,17 @@ func (c *fnCtx) retType() string {
 }
 
 func (c *fnCtx) ret(vals []string) string {
+	r := c.ret0(vals)
+	if c.inFor {
+		return "(inr " + r + ")"
+	}
+	if hasUnboundedFor(c.fn.decl) {
+		return "(Some " + r + ")"
+	}
+	return r
+}
+
+func (c *fnCtx) ret0(vals []string) string {
 	var parts []string
 	if c.fn.mutates {
 		parts = append(parts, c.fn.recv)
@@ -686,6 +726,32 @@ func (c *fnCtx) stmts(list []ast.Stmt, k func() string) string {
 			return c.loopOverT(xs, strings.TrimPrefix(lty, "list "), x.Value.(*ast.Ident).Name, x.Body.List, next)
 		})
 	case *ast.ForStmt:
+		if x.Init == nil && x.Cond == nil && x.Post == nil {
+			// for { body }: every path of the body ends in return or continue (break is not supported); the state is
+			// the tuple of outer variables assigned in the body; go_loop runs the body under an iteration budget
+			if c.inFor || c.loop != nil {
+				die("%s: nested unbounded loop at %s", c.fn.file.path, c.pos(x))
+			}
+			ast.Inspect(x.Body, func(n ast.Node) bool {
+				if b, ok := n.(*ast.BranchStmt); ok && b.Tok == token.BREAK {
+					die("%s: break inside an unbounded loop at %s", c.fn.file.path, c.pos(b))
+				}
+				return true
+			})
+			carried := c.assigned(x.Body.List)
+			if len(carried) != 1 {
+				die("%s: an unbounded loop must carry exactly one variable (%v) at %s", c.fn.file.path, carried, c.pos(x))
+			}
+			st := carried[0]
+			saved := c.copyEnv()
+			c.inFor = true
+			c.loop = &loopCtx{cont: func() string { return "(inl " + st + ")" }, brk: func() string { die("break"); return "" }}
+			body := c.stmts(x.Body.List, func() string { return "(inl " + st + ")" })
+			c.loop = nil
+			c.inFor = false
+			c.env = saved
+			return fmt.Sprintf("go_loop (fun %s : %s =>\n  %s) %s", st, coqType(c.env[st]), body, st)
+		}
 		// for i := A; i <= B; i++  with constant A, B and a body that does not assign i
 		as, ok1 := x.Init.(*ast.AssignStmt)
 		cond, ok2 := x.Cond.(*ast.BinaryExpr)
@@ -833,9 +899,16 @@ func (c *fnCtx) resultTypes(e ast.Expr) []string {
 		return gf.results
 	}
 	if se, ok := call.Fun.(*ast.SelectorExpr); ok {
-		if id, isPkg := se.X.(*ast.Ident); !(isPkg && id.Name == "time") && c.typeOf(se.X) == "gtime" {
-			if r, ok := gtimeMethods[se.Sel.Name]; ok {
-				return r
+		if id, isPkg := se.X.(*ast.Ident); !(isPkg && id.Name == "time") {
+			switch c.typeOf(se.X) {
+			case "gtime":
+				if r, ok := gtimeMethods[se.Sel.Name]; ok {
+					return r
+				}
+			case "csmh":
+				if r, ok := csmhMethods[se.Sel.Name]; ok {
+					return r
+				}
 			}
 		}
 	}
@@ -887,9 +960,18 @@ func (c *fnCtx) typeOf(e ast.Expr) string {
 		if _, ok := c.t.consts[x.Name]; ok {
 			return "Z"
 		}
+		if c.t.loc && x.Name == "nil" {
+			return "Z"
+		}
+		if c.t.loc && x.Name == "maxTime" {
+			return "gtime"
+		}
 	case *ast.SelectorExpr:
 		if id, ok := x.X.(*ast.Ident); ok && id.Name == "time" {
-			return "Z" // time.Saturday, time.Sunday
+			if x.Sel.Name == "UTC" {
+				return "zone"
+			}
+			return "Z" // time.Saturday, time.Sunday, time.Second
 		}
 		ty := c.typeOf(x.X)
 		if r := c.t.pathType(ty, []string{x.Sel.Name}); r != "" {
@@ -925,8 +1007,14 @@ func (c *fnCtx) typeOf(e ast.Expr) string {
 			return "(" + strings.Join(gf.results, " * ") + ")"
 		}
 		switch name := callName(x.Fun); name {
-		case "len", "int", "time.Month", "time.Duration":
+		case "len", "int", "int64", "time.Month", "time.Duration":
 			return "Z"
+		case "time.Unix":
+			return "gtime"
+		case "newCSMFromFields":
+			if c.t.loc {
+				return "csmh"
+			}
 		case "make":
 			return c.t.gtype(c.fn.file, x.Args[0])
 		case "append":
@@ -939,6 +1027,10 @@ func (c *fnCtx) typeOf(e ast.Expr) string {
 		}
 		if se, ok := x.Fun.(*ast.SelectorExpr); ok {
 			switch c.typeOf(se.X) {
+			case "csmh":
+				if r, ok := csmhMethods[se.Sel.Name]; ok {
+					return "(" + strings.Join(r, " * ") + ")"
+				}
 			case "gtime":
 				if r, ok := gtimeMethods[se.Sel.Name]; ok {
 					if len(r) == 1 {
@@ -963,7 +1055,10 @@ func (c *fnCtx) typeOf(e ast.Expr) string {
 }
 
 // methods of a located time.Time (GoTimeLoc.v) and their result types
+var csmhMethods = map[string][]string{"NextTriggerTime": {"gtime", "bool"}}
+
 var gtimeMethods = map[string][]string{
+	"In": {"gtime"}, "UnixNano": {"Z"},
 	"Date": {"Z", "Z", "Z"}, "Clock": {"Z", "Z", "Z"}, "Zone": {"unit", "Z"}, "ZoneBounds": {"gtime", "gtime"},
 	"IsZero": {"bool"}, "Add": {"gtime"}, "After": {"bool"}, "Before": {"bool"},
 }
@@ -1035,6 +1130,14 @@ func (c *fnCtx) expr(e ast.Expr, k func(string) string) string {
 		if _, ok := c.t.consts[x.Name]; ok {
 			return k("c_" + x.Name)
 		}
+		if c.t.loc {
+			switch x.Name {
+			case "nil":
+				return k("0") // the nil error
+			case "maxTime":
+				return k("time_maxTime")
+			}
+		}
 		die("%s: unknown identifier %s at %s", c.fn.file.path, x.Name, c.pos(x))
 	case *ast.SelectorExpr:
 		if id, ok := x.X.(*ast.Ident); ok && id.Name == "time" {
@@ -1044,6 +1147,10 @@ func (c *fnCtx) expr(e ast.Expr, k func(string) string) string {
 			case "Second":
 				if c.t.loc {
 					return k("1") // durations are counted in seconds (every Add argument is a multiple of time.Second: checked)
+				}
+			case "UTC":
+				if c.t.loc {
+					return k("utc_zone")
 				}
 			}
 			die("%s: unsupported time constant %s", c.fn.file.path, x.Sel.Name)
@@ -1201,6 +1308,25 @@ func (c *fnCtx) call(x *ast.CallExpr, k func(string) string) string {
 			die("%s: len of a non-slice at %s", c.fn.file.path, c.pos(x))
 		}
 		return c.expr(x.Args[0], func(v string) string { return k(fmt.Sprintf("(Z.of_nat (length %s))", v)) })
+	case "int64":
+		if len(x.Args) == 1 && callName(x.Args[0]) == "time.Second" {
+			return k("1000000000") // int64(time.Second): nanoseconds
+		}
+		if len(x.Args) != 1 || c.typeOf(x.Args[0]) != "Z" {
+			die("%s: conversion of a non-integer at %s", c.fn.file.path, c.pos(x))
+		}
+		return c.expr(x.Args[0], k)
+	case "time.Unix":
+		if len(x.Args) != 2 || c.fn.file.intOf(x.Args[1]) != 0 || c.typeOf(x.Args[0]) != "Z" {
+			die("%s: only time.Unix(sec, 0) is supported (%s)", c.fn.file.path, c.pos(x))
+		}
+		return c.expr(x.Args[0], func(v string) string { return k(fmt.Sprintf("(time_Unix %s)", v)) })
+	case "newCSMFromFields":
+		if !c.t.loc || len(x.Args) != 2 || c.typeOf(x.Args[0]) != "gtime" || c.typeOf(x.Args[1]) != "fields" {
+			die("%s: unexpected call of newCSMFromFields at %s", c.fn.file.path, c.pos(x))
+		}
+		// the state machine of internal/csm is an external function here (CronExt.v: the model's wall_next)
+		return c.exprs(x.Args, func(v []string) string { return k(fmt.Sprintf("(ext_newCSMFromFields %s %s)", v[0], v[1])) })
 	case "int", "time.Month":
 		if len(x.Args) != 1 || c.typeOf(x.Args[0]) != "Z" {
 			die("%s: conversion of a non-integer at %s", c.fn.file.path, c.pos(x))
@@ -1295,12 +1421,19 @@ func (c *fnCtx) call(x *ast.CallExpr, k func(string) string) string {
 	}
 	if se, ok := x.Fun.(*ast.SelectorExpr); ok {
 		switch c.typeOf(se.X) {
+		case "csmh":
+			if se.Sel.Name != "NextTriggerTime" || len(x.Args) != 1 || c.typeOf(x.Args[0]) != "zone" {
+				die("%s: unsupported use of the state machine at %s", c.fn.file.path, c.pos(x))
+			}
+			return c.exprs([]ast.Expr{se.X, x.Args[0]}, func(v []string) string {
+				return k(fmt.Sprintf("(ext_NextTriggerTime %s %s)", v[0], v[1]))
+			})
 		case "gtime":
 			r, ok := gtimeMethods[se.Sel.Name]
 			if !ok {
 				die("%s: unsupported time.Time method %s at %s", c.fn.file.path, se.Sel.Name, c.pos(x))
 			}
-			want := map[string][]string{"Add": {"Z"}, "After": {"gtime"}, "Before": {"gtime"}}[se.Sel.Name]
+			want := map[string][]string{"Add": {"Z"}, "After": {"gtime"}, "Before": {"gtime"}, "In": {"zone"}}[se.Sel.Name]
 			if len(x.Args) != len(want) {
 				die("%s: arity of %s at %s", c.fn.file.path, se.Sel.Name, c.pos(x))
 			}
@@ -1324,7 +1457,7 @@ func (c *fnCtx) call(x *ast.CallExpr, k func(string) string) string {
 			}
 			_ = r
 			fn := map[string]string{"Date": "time_DateOf", "Clock": "time_ClockOf", "Zone": "time_Zone", "ZoneBounds": "time_ZoneBounds",
-				"IsZero": "time_IsZero", "Add": "time_AddSec", "After": "time_After", "Before": "time_Before"}[se.Sel.Name]
+				"IsZero": "time_IsZero", "Add": "time_AddSec", "After": "time_After", "Before": "time_Before", "In": "time_In", "UnixNano": "time_UnixNano"}[se.Sel.Name]
 			return c.exprs(append([]ast.Expr{se.X}, x.Args...), func(v []string) string {
 				return k(fmt.Sprintf("(%s %s)", fn, strings.Join(v, " ")))
 			})
@@ -1366,9 +1499,22 @@ func init() { sections["cronsrc"] = genCronSrc }
 func genCronSrc(o *out) {
 	t := &csmTr{structs: map[string]*gstruct{}, funcs: map[string]*gfunc{}, consts: map[string]int64{}, loc: true}
 	f := parse("quartz/cron.go")
-	for _, name := range []string{"firstAfter"} {
-		fd := f.method("", name)
+	// the receiver of NextFireTime: only the fields the translated code may read (any other field fails closed)
+	t.structs["CronTrigger"] = &gstruct{name: "CronTrigger", fields: []gfield{{"fields", "fields"}, {"location", "zone"}}}
+	t.consts["ErrTriggerExpired"] = 1
+	// maxTime must be time.Unix(0, 1<<63-1) (GoTimeLoc.time_maxTime)
+	if mt, ok := f.valueExpr("maxTime").(*ast.CallExpr); !ok || callName(mt.Fun) != "time.Unix" || len(mt.Args) != 2 ||
+		f.intOf(mt.Args[0]) != 0 || evalBig(f, mt.Args[1]) != 1<<63-1 {
+		die("quartz/cron.go: maxTime is not time.Unix(0, 1<<63-1)")
+	}
+	add := func(recv, name string) {
+		fd := f.method(recv, name)
 		gf := &gfunc{decl: fd, file: f, goName: name, coqName: "g_" + name}
+		if recv != "" {
+			gf.recv = fd.Recv.List[0].Names[0].Name
+			gf.recvType = recv
+			gf.goName = recv + "." + name
+		}
 		for _, p := range fd.Type.Params.List {
 			for _, n := range p.Names {
 				gf.params = append(gf.params, gfield{n.Name, t.gtype(f, p.Type)})
@@ -1383,17 +1529,22 @@ func genCronSrc(o *out) {
 				gf.results = append(gf.results, t.gtype(f, r.Type))
 			}
 		}
-		t.funcs[name] = gf
+		t.funcs[gf.goName] = gf
 	}
-	o.line("(* Source-to-Gallina translation of quartz/cron.go's firstAfter (see harness/cmd/genparams/csmsrc.go). *)")
+	add("", "firstAfter")
+	add("CronTrigger", "NextFireTime")
+	o.line("(* Source-to-Gallina translation of quartz/cron.go's firstAfter and CronTrigger.NextFireTime (see harness/cmd/genparams/csmsrc.go). *)")
 	o.line("From Coq Require Import ZArith List Bool.")
-	o.line("Require Import QzBase.Calendar QzCron.NextFire QzCron.GoTimeLoc.")
+	o.line("Require Import QzBase.Calendar QzBase.Fields QzCron.NextFire QzCron.GoTimeLoc QzCron.CronExt.")
 	o.line("Import ListNotations.")
 	o.line("Open Scope Z_scope.")
 	o.line("")
+	o.line("Definition c_ErrTriggerExpired : Z := 1.")
+	o.line("Record CronTrigger := { CronTrigger_fields : fields; CronTrigger_location : zone }.")
+	o.line("")
 	t.texts = map[string]string{}
 	t.state = map[string]int{}
-	for _, name := range []string{"firstAfter"} {
+	for _, name := range []string{"firstAfter", "CronTrigger.NextFireTime"} {
 		t.require(t.funcs[name])
 	}
 	for _, n := range t.order {
@@ -1401,12 +1552,11 @@ func genCronSrc(o *out) {
 	}
 }
 
-
 // Gallina keywords and notations that a Go local variable may be called: such variables get a trailing underscore.
 var coqReserved = map[string]bool{"end": true, "at": true, "as": true, "in": true, "fix": true, "cofix": true, "match": true, "with": true,
 	"let": true, "fun": true, "if": true, "then": true, "else": true, "return": true, "forall": true, "exists": true, "where": true,
 	"using": true, "for": true, "mod": true, "Type": true, "Set": true, "Prop": true, "struct": true, "fst": true, "snd": true,
-	"nil": true, "cons": true, "length": true, "nth": true, "hd": true, "tt": true, "negb": true, "andb": true, "orb": true}
+	"cons": true, "length": true, "nth": true, "hd": true, "tt": true, "negb": true, "andb": true, "orb": true}
 
 func renameReserved(fd *ast.FuncDecl) {
 	sel := map[*ast.Ident]bool{}
